@@ -153,6 +153,11 @@ def c07_scope(rng, depth, names):
         members[0] = A.Renamed("x", A.Default(A.Alias("Byte"), rng.choice([1, 2, 3])))
     elif r < 0.3:
         members[0] = A.Renamed("x", A.Rebuild(A.Alias("Byte"), A.Bin("+", A.Bin("%", A.T("y"), A.C(3)), A.C(1))))
+    elif r < 0.38:      # ... behind a wrapper that has nothing to add (the member already fills its alignment unit)
+        members[0] = A.Renamed("x", A.Aligned(2, A.Default(A.Alias("Int16ub"), rng.choice([1, 2, 3]))))
+    elif r < 0.46:      # a member whose name starts with an underscore is a sibling like any other: visible to earlier members on build
+        members[0] = A.Renamed("x", A.Rebuild(A.Alias("Byte"), A.Bin("+", A.Bin("%", A.T("_u"), A.C(3)), A.C(1))))
+        members.append(A.Renamed("_u", A.Alias("Byte")))
     inner = []
     if depth > 0:
         sub = c07_scope(rng, depth - 1, names)
